@@ -291,7 +291,7 @@ func (g *gen) c09Script(n int) string {
 				next += c.H
 			}
 		}
-		sc := g.r.Intn(10)
+		sc := g.r.Intn(11)
 		g.stats[fmt.Sprintf("c09.scenario%d", sc)]++
 		if sc == 9 {
 			// a late duplicate acknowledgement of the old connection is still parked when the
@@ -342,6 +342,16 @@ func (g *gen) c09Script(n int) string {
 			b.at(1, "read")
 			b.at(1, "end")
 			return b.String()
+		case 10: // answered twice (the gateway also answers the resend, or repeats itself); the surplus
+			// answer finds no heartbeat waiting and must not count for the NEXT heartbeat, which the
+			// gateway leaves unanswered
+			b.at(0, fmt.Sprintf("rx csres %d 0", ch))
+			b.at(g.pick(1, 1, c.R+1), fmt.Sprintf("rx csres %d 0", ch))
+			if b.q < next+c.H-1 {
+				b.q = next + c.H
+				b.at(c.T, "read")
+				reconnect = true
+			}
 		case 8: // answered while a telegram is in flight from the gateway
 			b.at(0, fmt.Sprintf("rx treq %d 0 %d", ch, 6000+ep))
 			b.at(0, fmt.Sprintf("rx csres %d 0", ch))
